@@ -157,8 +157,15 @@ def r203_duplicates(ctx):
     it = A.C.canon(lev.data["iter"])
     both = A.C.canon(mk("binop", "+", sf, cf))
     ok = contains(it, lambda s: s is both) or it is both
+    # sf + (cf or []): the control names, or nothing when there are none
+    alts = [A.C.canon(A.at(lev, s_)) for s_ in ("self._sf_names + (self._cf_names or [])", "self._sf_names + (self._cf_names or list())",
+                                                "self._sf_names + (self._cf_names if self._cf_names else [])",
+                                                "self._sf_names + ([] if self._cf_names is None else self._cf_names)",
+                                                "self._sf_names + (self._cf_names if self._cf_names is not None else [])")]
+    if any(it is a_ for a_ in alts):
+        ok = True
     # the control names may be skipped only when there are none
-    if it.op == "ite":
+    if it.op == "ite" and not any(it is a_ for a_ in alts):
         ok = ok and (it.args[1] is both or it.args[2] is both) and (it.args[1] is A.C.canon(sf) or it.args[2] is A.C.canon(sf))
         cond = it.args[0]
         ok = ok and contains(cond, lambda s: s is A.C.canon(cf))
@@ -217,7 +224,11 @@ def r204_validator(ctx):
         "non-binary labels": ["expect_y and not (y is None) and not (ya.size == 0) and (ya.ndim == 1 or (ya.ndim == 2 and ya.shape[1] == 1))"
                               " and enforce_binary_labels and not set(np.unique(ya)).issubset(set([0, 1]))",
                               "expect_y and not (y is None) and not (ya.size == 0) and (ya.ndim == 1 or (ya.ndim == 2 and ya.shape[1] == 1))"
-                              " and enforce_binary_labels and not set(np.unique(ya)).issubset({0, 1})"],
+                              " and enforce_binary_labels and not set(np.unique(ya)).issubset({0, 1})",
+                              "expect_y and not (y is None) and not (ya.size == 0) and (ya.ndim == 1 or (ya.ndim == 2 and ya.shape[1] == 1))"
+                              " and enforce_binary_labels and not set(np.unique(ya)) <= {0, 1}",
+                              "expect_y and not (y is None) and not (ya.size == 0) and (ya.ndim == 1 or (ya.ndim == 2 and ya.shape[1] == 1))"
+                              " and enforce_binary_labels and not set(np.unique(ya)) <= set([0, 1])"],
     }
     found = {}
     for e in raises:
@@ -551,8 +562,14 @@ def r2015_correlation_remover(ctx):
         lit = A.C.canon(e.pc[-1])
         miss_df = A.entry(rc, "[c for c in self.sensitive_feature_ids if c not in X.columns]")
         ok = lit.op == "cmp" and lit.args[0] == "<" and lit.args[1] is const(0) and lit.args[2].op == "fn" and lit.args[2].args[0] == "len"
+        m = lit.args[2].args[1] if ok else None
+        if not ok and lit.op == "cmp" and lit.args[0] == "!=":   # len(missing) != 0 (a length is never negative)
+            for x_, y_ in ((lit.args[1], lit.args[2]), (lit.args[2], lit.args[1])):
+                if x_ is A.C.canon(const(0)) and y_.op == "fn" and y_.args[0] == "len":
+                    ok, m = True, y_.args[1]
+        if not ok and lit.op in ("comp", "ite", "list", "assume") and contains(lit, lambda s: s.op == "comp"):
+            ok, m = True, lit   # `if missing_columns:` - a list is true exactly when it is not empty
         if ok:
-            m = lit.args[2].args[1]
             ok = contains(m, lambda s: s is A.C.canon(miss_df))
             # ndarray branch: ids not in range(n columns)
             ok = ok and contains(m, lambda s: s.op == "comp" and contains(s, lambda q: q.op == "fn" and q.args[0] == "range"))
